@@ -179,3 +179,20 @@ def adt_variants(facts, adt_path):
         if a["def"] == adt_path:
             return [(v["name"], len(v["fields"])) for v in a["variants"]]
     return None
+
+
+def callees_inlined(facts, e, depth=1):
+    """callees(e) with every call of a first-party function replaced by that call followed by the callees of the
+    function's body (to the given depth): a step moved into a helper function still counts as taken at the call site."""
+    out = []
+    for c in callees(e):
+        out.append(c)
+        if depth > 0 and isinstance(c, str) and c.split("::")[0].lstrip("<&") in ("jaq_core", "jaq_std", "jaq_json", "jaq_fmts", "jaq_all", "jaq"):
+            f = None
+            try:
+                f = facts.hir_fn(c)
+            except Exception:
+                f = None
+            if f is not None:
+                out += callees_inlined(facts, f["body"], depth - 1)
+    return out
